@@ -7,6 +7,7 @@ import (
 	"sort"
 	"strings"
 	"sync"
+	"sync/atomic"
 	"time"
 
 	"cloud.google.com/go/bigtable"
@@ -493,6 +494,8 @@ type Req struct {
 	Ranges  []RowRange `json:"ranges,omitempty"`
 	Filter  *Filter    `json:"filter,omitempty"`
 	Limit   int64      `json:"limit,omitempty"`
+	// read only, oracle-only cases: the client goes away -- the stream's Send fails from the n-th message on
+	FailSend int `json:"fail_send,omitempty"`
 }
 
 type Call struct {
@@ -729,13 +732,23 @@ func globalCoin() float64 {
 	return 0.75
 }
 
+// heldAnswer: the ReadModifyWriteRow answer most recently handed out by this emulator, exactly as the
+// handler returned it (not yet re-marshalled), together with its wire form at that moment.  An answer
+// belongs to the client: it must not change when later requests run.
+type heldAnswer struct {
+	msg  proto.Message
+	wire []byte
+	what string
+}
+
 type Emu struct {
+	held       atomic.Pointer[heldAnswer]
 	concurrent bool // requests run concurrently: per-goroutine clocks only
-	nowByG sync.Map
-	v     *bttest.VerifServer
-	now   int64
-	coins []bool
-	ci    int
+	nowByG     sync.Map
+	v          *bttest.VerifServer
+	now        int64
+	coins      []bool
+	ci         int
 }
 
 func NewEmu(st bttest.Storage) *Emu {
@@ -769,11 +782,15 @@ func (e *Emu) coin() float64 {
 
 type rrStream struct {
 	grpc.ServerStream
-	msgs []*btpb.ReadRowsResponse
+	msgs     []*btpb.ReadRowsResponse
+	failFrom int // > 0: Send fails from this message on (the client has gone away)
 }
 
 func (s *rrStream) Context() context.Context { return context.Background() }
 func (s *rrStream) Send(m *btpb.ReadRowsResponse) error {
+	if s.failFrom > 0 && len(s.msgs)+1 >= s.failFrom {
+		return status.Error(codes.Canceled, "client went away")
+	}
 	s.msgs = append(s.msgs, proto.Clone(m).(*btpb.ReadRowsResponse))
 	return nil
 }
@@ -1070,6 +1087,15 @@ func (e *Emu) exec(c Call) Resp {
 		if err != nil {
 			return Resp{Code: codeOf(err), Kind: "none"}
 		}
+		var stale []string
+		if h := e.held.Load(); h != nil {
+			if now, _ := proto.Marshal(h.msg); !bytes.Equal(now, h.wire) {
+				stale = append(stale, "an answer handed out earlier ("+h.what+") changed while a later request ran")
+			}
+		}
+		if w, err := proto.Marshal(res); err == nil {
+			e.held.Store(&heldAnswer{msg: res, wire: w, what: fmt.Sprintf("ReadModifyWriteRow %q", r.Key)})
+		}
 		res = rt(res)
 		row := Row{Key: res.Row.GetKey()}
 		for _, f := range res.Row.GetFamilies() {
@@ -1083,7 +1109,7 @@ func (e *Emu) exec(c Call) Resp {
 			}
 			row.Fams = append(row.Fams, nf)
 		}
-		return Resp{Kind: "rows", Rows: []Row{row}}
+		return Resp{Kind: "rows", Rows: []Row{row}, Notes: stale}
 	case "read":
 		req := &btpb.ReadRowsRequest{TableName: r.Table, Filter: r.Filter.pb(), RowsLimit: r.Limit}
 		if len(r.Keys)+len(r.Ranges) > 0 {
@@ -1105,7 +1131,7 @@ func (e *Emu) exec(c Call) Resp {
 				req.Rows.RowRanges = append(req.Rows.RowRanges, rr)
 			}
 		}
-		st := &rrStream{}
+		st := &rrStream{failFrom: r.FailSend}
 		err := data.ReadRows(rt(req), st)
 		if err != nil {
 			return Resp{Code: codeOf(err), Kind: "none"}
